@@ -12,7 +12,7 @@ from core import fr
 class C05(core.Check):
     pid = 'C05'
     unproved = [
-        'engine level (tracer on real sessions): decided by the oracle',
+        'engine level, "every executed order is in exactly one trade" and "the registry holds EXACTLY the non-final orders" over whole runs: theorems at operation level (executed_recorded_once, active_registry), on real sessions decided by the tracer oracle; the run-level theorems (run_lifecycle_step/skip, final_stays_final_*) cover the status, symbol/price and registry-shrinks clauses for every strategy',
     ]
     rule = ('correspondence: operation sequences on the real Order/Exchange/Position/OrdersState/ClosedTrades objects and the '
             'Lean accounts model with repeated execute/cancel calls on the same order, cancel-all interleaved with active '
@@ -143,6 +143,12 @@ class C05(core.Check):
             rows = engine.gen_candles(rr, n, gap_prob=0.2)
             cands = {'BTC-USDT': bt.make_candles(rows)}
             script = engine.gen_script(rr, spot=kind == 'spot')
+            # a second trading route on another symbol: one route's cancellations and closed trades must leave the
+            # other route's resting orders registered
+            two = rr.random() < 0.4
+            if two:
+                cands['ETH-USDT'] = bt.make_candles(engine.gen_candles(rr, n, gap_prob=0.2))
+                script2 = engine.gen_script(rr, spot=kind == 'spot')
             problems = []
             holder = {}
 
@@ -158,7 +164,9 @@ class C05(core.Check):
                 regs = sorted(x for x in reg if x is not None)
                 if (hook == 'before' and regs != want) or None in reg or any(k not in regs for k in want):
                     problems.append(('active-registry', strategy.index, reg, want))
-            classes = [('BTC-USDT', tf, engine.make_strategy(script, observer))]
+            classes = [('BTC-USDT', tf, engine.make_strategy(script, observer, name='S_BTC'))]
+            if two:
+                classes.append(('ETH-USDT', tf, engine.make_strategy(script2, observer, name='S_ETH')))
             tr = engine.Tracer()
             holder['tr'] = tr
             err = None
@@ -168,6 +176,9 @@ class C05(core.Check):
                 except Exception as e:  # noqa
                     err = e
             desc = {'seed': seed, 'kind': kind, 'timeframe': tf, 'fast': fast, 'n': n, 'script': script}
+            if two:
+                desc['script2'] = script2
+                res.count('sessions:two-routes')
             fills = {}
             cancels = {}
             for e in tr.events:
